@@ -758,25 +758,25 @@ class ASTNode(DataClassSerializeMixin):
         """
 
         for f in get_cls_props(cls):
-            # Skip id
-            if (f.name == "id") and skip_id:
-                continue
+            # id, content_id & origin are governed only by their own flags
+            # (same as in the `get_properties` instance method)
+            if f.name == "id":
+                if skip_id:
+                    continue
+            elif f.name == "content_id":
+                if skip_content_id:
+                    continue
+            elif f.name == "origin":
+                if skip_origin:
+                    continue
+            else:
+                # Skip non-comparable fields
+                if not f.compare and skip_non_compare:
+                    continue
 
-            # Skip content_id
-            if f.name == "content_id" and skip_content_id:
-                continue
-
-            # Skip origin
-            if f.name == "origin" and skip_origin:
-                continue
-
-            # Skip non-comparable fields
-            if not f.compare and skip_non_compare:
-                continue
-
-            # Skip non-init fields
-            if not f.init and skip_non_init:
-                continue
+                # Skip non-init fields
+                if not f.init and skip_non_init:
+                    continue
 
             yield f
 
